@@ -358,7 +358,7 @@ pub fn run(args: &Args, sink: &mut Sink, rng: &mut Rng) {
     s.shard = 100;
     let g = Gen { cols: &cols };
     let names = |n: &str| n.trim_start_matches("ix").parse::<u64>().unwrap_or(9999);
-    let n = args.vol(700, 12000);
+    let n = args.vol(500, 12000);
     for _ in 0..n {
         let (info, prov) = gen_info(rng, &cols);
         let dp = rng.below(4) as u32;
